@@ -210,8 +210,8 @@ func (r *c15Run) opCert(i int, op sim.Op) {
 		m.signer, m.issuerCN = m.key, m.cn
 	}
 	now := time.Now().UTC().Truncate(time.Second)
-	m.nb = now.Add(time.Duration(c15Clamp(op.Int(3), -24*4000, 24*4000)) * time.Hour)
-	m.na = now.Add(time.Duration(c15Clamp(op.Int(4), -24*4000, 24*4000)) * time.Hour)
+	m.nb = now.Add(time.Duration(c15Clamp(op.Int(3), -600000, 600000)) * time.Hour)
+	m.na = now.Add(time.Duration(c15Clamp(op.Int(4), -600000, 600000)) * time.Hour)
 	m.bc = op.Int(5)&1 == 1
 	tmplCA := op.Int(6)&1 == 1
 	m.ca = m.bc && tmplCA
